@@ -362,6 +362,11 @@ PROBES = {
     'alert': ("start = 'a' ^`warn` 'b' $ ;", ['a b', 'a'], None),
     'unicode-names': ("start = größe:'a' ключ:'b' ;", ['a b'], None),
     'eol': ("start = 'a' $-> 'b' ;", ['a\nb', 'a b'], None),
+    'right-join': ("start = '^'>{n}+ $ ;\nn = /\\d/ ;", ['2 ^ 3 ^ 2', '1 ^ 2 ^ 3 ^ 4', '2'], None),
+    'left-join': ("start = '-'<{n}+ $ ;\nn = /\\d/ ;", ['5 - 2 - 1', '9 - 1 - 2 - 3', '5'], None),
+    'based-chain': ("start = c $ ;\na = 'x' ;\nb < a = 'y' ;\nc < b = 'z' ;", ['x y z', 'y z', 'z'], None),
+    'nostak-rule': ("start = r 'b' $ ;\n@nostak\nr = 'a' ;", ['a b'], None),
+    'override-decorator': ("start = r $ ;\nr = 'a' ;\n@override\nr = 'b' ;", ['a', 'b'], None),
 }
 
 
@@ -453,6 +458,45 @@ def shard_history(col, shard_i, nhist):
                 col.count('history.fresh-vs-model-differs')      # the one-shot comparison (shard) reports and classifies these
 
 
+def shard_config_object(col, shard_i):
+    """parse(text, config=ParserConfig(...), keyword=...) in one call: an explicit keyword wins over the config object; model.parse and the
+    generated parser must agree (compared on acceptance and on the presence of parse information)"""
+    import tatsu
+    from tatsu.config import ParserConfig
+    g = "start = n:'if' m:/[a-z]+/ $ ;"
+    m = tatsu.compile(g)
+    ns: dict = {}
+    exec(tatsu.to_python_sourcecode(g, name='Q'), ns)
+    cls = ns['QParser']
+    combos = [
+        ({'whitespace': ''}, {'whitespace': r'\s+'}, 'if x'), ({'whitespace': r'\s+'}, {'whitespace': ''}, 'if x'),
+        ({'ignorecase': True}, {'ignorecase': False}, 'IF x'), ({'ignorecase': False}, {'ignorecase': True}, 'IF x'),
+        ({'nameguard': False}, {'nameguard': True}, 'ifx'), ({'nameguard': True}, {'nameguard': False}, 'ifx'),
+        ({}, {'parseinfo': True}, 'if x'), ({'parseinfo': True}, {'parseinfo': False}, 'if x'), ({'parseinfo': True}, {}, 'if x'),
+        ({'comments': r'\(\*.*?\*\)'}, {'comments': ''}, 'if (* c *) x'), ({}, {'comments': r'\(\*.*?\*\)'}, 'if (* c *) x'),
+    ]
+
+    def outcome(run):
+        try:
+            r = run()
+            return ('ok', bool(getattr(r, 'parseinfo', None)))
+        except tatsu.exceptions.FailedParse:
+            return ('fail', None)
+        except Exception as e:  # noqa
+            return ('exc', type(e).__name__)
+    for cfgkw, kw, text in combos:
+        a = outcome(lambda: m.parse(text, config=ParserConfig(**cfgkw), **kw))
+        b = outcome(lambda: cls().parse(text, config=ParserConfig(**cfgkw), **kw))
+        want = outcome(lambda: m.parse(text, **{**cfgkw, **kw}))            # the keyword wins
+        col.case(['config-object', repr(cfgkw), repr(kw), text], nontrivial=True)
+        col.count('config-object.compared')
+        if a != b or a != want:
+            col.violation(f'config-object:{"+".join(sorted(set(cfgkw) | set(kw)))}:model={a[0]}:generated={b[0]}:expected={want[0]}',
+                          'a config object and a keyword setting in one call: the two back-ends disagree, or the keyword does not win',
+                          {'oracle': 'config object vs keyword precedence', 'grammar': g, 'config': cfgkw, 'keywords': kw, 'text': text,
+                           'model.parse': a, 'generated': b, 'keyword-wins': want})
+
+
 def main():
     chk = Check(PID)
     chk.rule = ('random grammars over the core language with directives, @nomemo, upper-case and keyword-like rule names (class, def, None, ...), '
@@ -473,6 +517,9 @@ def main():
         else:
             vlib.run_sharded(chk, shard, 28, extra=(50, 10))
         vlib.run_sharded(chk, shard_probes, 1, procs=1)
+        vlib.run_sharded(chk, shard_config_object, 1, procs=1)
+        chk.obligation('config object and keyword settings in one call: same precedence in both back-ends', 'oracle',
+                       not any(v['signature'].startswith('config-object:') for v in chk.violations))
         vlib.run_sharded(chk, shard_history, 14, extra=((12,) if chk.quick else (150,)))
         chk.obligation('a reused generated parser object behaves like a fresh one on every call of a history', 'oracle',
                        not any(v['signature'].startswith('history:') for v in chk.violations))
